@@ -641,6 +641,14 @@ def r_spline(ctx: Ctx, model):
                     c = tck[1]
                     ok = eq_arrays(c, numpy.array([list(XS), list(YS)], dtype=object))
                     why = f"spline coefficients are {c!r}; the data themselves (numpy.stack((xs, ys), axis=-1).T) required as control points"
+                    # an open B-spline over `count` control points exists only up to degree count - 1
+                    kdeg = to_np(None, tck[2]) if not isinstance(tck[2], (int,)) else tck[2]
+                    want_deg = min(max(deg, 1), NC - 1)
+                    okd = (isinstance(kdeg, (int, sp.Integer)) or getattr(kdeg, "is_Integer", False)) and int(kdeg) == want_deg
+                    ctx.ob(okd, Finding("C18.K-spline", fi.where, f"degree|requested={deg}",
+                                        f"bspline(degree={deg}) over {NC} points evaluates a spline of degree {kdeg!r}; required {want_deg} "
+                                        f"(clipped to 1 .. count - 1 = {NC - 1}: a higher degree has no valid knot vector and the evaluation returns NaN)"),
+                           nontrivial_key=("spline-degree", deg))
             ctx.ob(ok, Finding("C18.K-spline", fi.where, "control-points", why), nontrivial_key=("cv",))
             # both outputs are the two coordinate rows of the same evaluation
             m = len(val[0]) if isinstance(val[0], numpy.ndarray) else 0
